@@ -64,6 +64,9 @@ func c16Run(r *zsim.Run) {
 	maxTasks := zsim.Pick(o, 2, 1, 3, 10)
 	maxBytes := zsim.Pick(o, 8, 64)
 	adders := 1 + o.Intn(3)
+	if r.Tier == "thorough" && o.Intn(4) == 0 {
+		adders = 4 + o.Intn(3) // the thorough tier also draws larger runs
+	}
 	var all []*c16Task
 	var waits []*c16Wait
 	var batches [][]*c16Task
